@@ -37,6 +37,10 @@ pub struct E3Scenario {
     pub hash_seed: u64,
     pub files: Vec<E3File>,
     pub root: usize,
+    /// the root document's path as the caller hands it in (the CLI passes glob results,
+    /// which may contain `.` and `..`); empty = the normalised path
+    #[serde(default)]
+    pub root_as_given: String,
 }
 
 // ------------------------------------------------------------------ reference closure
@@ -153,7 +157,18 @@ pub fn gen_scenario(run_seed: u64, tier: Tier) -> E3Scenario {
             present,
         });
     }
-    E3Scenario { hash_seed: base.fork("hash").next_u64(), files, root }
+    let root_as_given = if rw.chance(1, 4) {
+        let p = &files[root].path;
+        let dir = indep::dirname(p);
+        let last = indep::basename(dir);
+        match rw.below(2) {
+            0 => format!("{dir}/../{last}/{}", indep::basename(p)),
+            _ => format!("{dir}/./{}", indep::basename(p)),
+        }
+    } else {
+        String::new()
+    };
+    E3Scenario { hash_seed: base.fork("hash").next_u64(), files, root, root_as_given }
 }
 
 // ------------------------------------------------------------------ execution
@@ -180,6 +195,10 @@ pub enum Resolved {
 
 /// Runs the real resolver over `texts` (index = file index used for positions).
 pub fn run_resolver(texts: &[(String, String, bool)], root: usize) -> Resolved {
+    run_resolver_as(texts, root, "")
+}
+
+pub fn run_resolver_as(texts: &[(String, String, bool)], root: usize, root_as_given: &str) -> Resolved {
     // leak the sources for the duration of the run (worker-lifetime small)
     let mut parsed: Vec<Option<(OperationDocument<'_>, OperationExtension<'_>)>> = Vec::new();
     for (i, (_, text, _)) in texts.iter().enumerate() {
@@ -202,7 +221,8 @@ pub fn run_resolver(texts: &[(String, String, bool)], root: usize) -> Resolved {
     }
     let resolver = MapResolver { map };
     let r = parsed[root].as_ref().unwrap();
-    match resolve_operation_imports((Path::new(&texts[root].0), &r.0, &r.1), &resolver) {
+    let root_path = if root_as_given.is_empty() { texts[root].0.as_str() } else { root_as_given };
+    match resolve_operation_imports((Path::new(root_path), &r.0, &r.1), &resolver) {
         Ok(doc) => Resolved::Ok(
             doc.definitions
                 .iter()
@@ -291,8 +311,11 @@ pub fn check_scenario(sc: &E3Scenario, rep: &mut RunReport) {
 
     let texts: Vec<(String, String, bool)> = sc.files.iter().map(|f| (f.path.clone(), f.text.clone(), f.present)).collect();
     let texts_perm: Vec<(String, String, bool)> = sc.files.iter().map(|f| (f.path.clone(), f.text_perm.clone(), f.present)).collect();
-    let r1 = run_resolver(&texts, sc.root);
-    let r2 = run_resolver(&texts_perm, sc.root);
+    if !sc.root_as_given.is_empty() {
+        rep.probe("root_path_not_normalised");
+    }
+    let r1 = run_resolver_as(&texts, sc.root, &sc.root_as_given);
+    let r2 = run_resolver_as(&texts_perm, sc.root, &sc.root_as_given);
     rep.events += 2;
 
     for (label, r, tx) in [("", &r1, &texts), ("perm:", &r2, &texts_perm)] {
